@@ -211,3 +211,74 @@ def seeded_regression(prog: Program, prop: str, run_rules, base_findings) -> dic
     if failures:
         raise AnalysisError("seeded-change regression failed: " + "; ".join(failures))
     return out
+
+
+def _apply_patch(prog: Program, pp: str):
+    """Program with the modules touched by patch file `pp` replaced by their patched text (None if it does not apply)."""
+    import os
+    import re
+    import shutil
+    import subprocess
+    import tempfile
+
+    files = re.findall(r"^\+\+\+ b/(\S+)", open(pp).read(), flags=re.M)
+    td = tempfile.mkdtemp(prefix="sfpatch")
+    try:
+        for rel in files:
+            m = prog.by_relpath.get(rel)
+            if m is None:
+                return None
+            os.makedirs(os.path.dirname(os.path.join(td, rel)), exist_ok=True)
+            with open(os.path.join(td, rel), "w") as fh:
+                fh.write(m.source)
+        r = subprocess.run(["git", "apply", "--whitespace=nowarn", pp], cwd=td, capture_output=True, text=True)
+        if r.returncode != 0:
+            return None
+        vp = prog
+        for rel in files:
+            vp = vp.with_override(rel, open(os.path.join(td, rel)).read())
+        return vp
+    finally:
+        shutil.rmtree(td, ignore_errors=True)
+
+
+def benign_regression(prog: Program, prop: str, run_rules, base_findings) -> dict:
+    """Thorough tier: re-apply every kept behaviour-preserving refactoring (/verif/benign/<id>/patch.diff, written by
+    independent agents told only to refactor without changing behaviour; the stable test suite passed with each) and
+    require that the rules report nothing new and do not refuse.  A patch that no longer applies is skipped and counted."""
+    import os
+
+    root = os.path.join(os.path.dirname(os.path.dirname(os.path.abspath(__file__))), "benign")
+    out = {"applied": 0, "skipped": 0, "silent": 0, "details": []}
+    if not os.path.isdir(root):
+        return out
+    base = {}
+    for f in base_findings:
+        base[(f.rule, f.qualname)] = base.get((f.rule, f.qualname), 0) + 1
+    failures = []
+    for bid in sorted(os.listdir(root)):
+        pp = os.path.join(root, bid, "patch.diff")
+        if not os.path.exists(pp):
+            continue
+        vp = _apply_patch(prog, pp)
+        if vp is None:
+            out["skipped"] += 1
+            out["details"].append({"refactoring": bid, "status": "skipped (patch does not apply to the analysed tree)"})
+            continue
+        out["applied"] += 1
+        try:
+            fs = run_rules(vp)
+        except AnalysisError as e:
+            failures.append(f"behaviour-preserving refactoring {bid} makes the analysis refuse: {e}")
+            continue
+        keys = {}
+        for f in fs:
+            keys[(f.rule, f.qualname)] = keys.get((f.rule, f.qualname), 0) + 1
+        new = sorted(k for k, n in keys.items() if n > base.get(k, 0))
+        if new:
+            failures.append(f"behaviour-preserving refactoring {bid} raises a false alarm: " + ", ".join(f"{r}@{q}" for r, q in new[:3]))
+        else:
+            out["silent"] += 1
+    if failures:
+        raise AnalysisError("benign-refactoring regression failed: " + "; ".join(failures))
+    return out
